@@ -83,7 +83,7 @@ def describe():
         "None.")
     d['real'][0] = 'pyins.filters.run_feedforward_filter'
     d['assumptions'][2] = ("Termination is decided as bounded liveness: <= "
-                           "400*(rows+epochs+2) executed source lines of pyins.filters.")
+                           "2000*(rows+epochs+2) executed source lines of pyins.filters.")
     d['assumptions'].append(
         "Step-length clause as stated: consecutive grid times a<b satisfy b <= fl(a + "
         "time_step) or b is the input row right after a.")
